@@ -26,6 +26,10 @@
 //	         to the forwarding threads; st = digest of ALL packets delivered so far in this history,
 //	         which the harness retains without copying, rendered again now), "skip" when that frame
 //	         does not exist
+//	rxb <id>     the packet of message <id> arrives BARE (no LpPacket) => like rx
+//	Every frame arrives in the receiving transport's reusable receive buffer, which the harness
+//	overwrites as soon as handleIncomingFrame returns; renderings include the name the forwarder
+//	works with (pkt.Name): d=<pkthex>/<tokhex|->/<mark|->/<namehex>@<threads>.
 //	end   => ps=<partial messages held> [h=<pkthex>/<tokhex|->/<mark|->]*  every retained packet,
 //	         rendered again at the end of the history
 package c10
@@ -67,7 +71,12 @@ func render(p *defn.Pkt) string {
 	if p.CongestionMark != nil {
 		mark = strconv.FormatUint(*p.CongestionMark, 10)
 	}
-	return common.Hex(p.Raw) + "/" + common.Hex(p.PitToken) + "/" + mark
+	// the name the forwarder works with (pkt.Name, set by dispatch from the decoded L3 packet)
+	name := "-"
+	if p.Name != nil {
+		name = common.Hex(p.Name.Bytes())
+	}
+	return common.Hex(p.Raw) + "/" + common.Hex(p.PitToken) + "/" + mark + "/" + name
 }
 
 // one QueueInterest/QueueData call: which thread got which packet
@@ -132,6 +141,34 @@ type world struct {
 	snd, rcv *face.NDNLPLinkService
 	thr      uint64
 	frames   map[string][][]byte
+	pkts     map[string][]byte
+	rbuf     []byte // the receiving transport's REUSABLE receive buffer: every frame arrives in it
+}
+
+// arrive hands a frame to the receiving link service the way a transport does: in its reusable
+// receive buffer, which is overwritten as soon as handleIncomingFrame returns (the next read).
+func (w *world) arrive(frame []byte) {
+	if len(w.rbuf) < len(frame) {
+		w.rbuf = make([]byte, len(frame)+defn.MaxNDNPacketSize)
+	}
+	n := copy(w.rbuf, frame)
+	calls = calls[:0]
+	face.VerifHandleIncomingFrame(w.rcv, w.rbuf[:n])
+	for i := range w.rbuf {
+		w.rbuf[i] = 0xAA
+	}
+	collect()
+}
+
+func rxOut() string {
+	out := "ps=" + strconv.Itoa(face.VerifPartialMessages(w.rcv))
+	for _, d := range delivered {
+		out += " " + d
+	}
+	if len(delivered) > 0 {
+		out += " st=" + heldDigest() // all packets delivered so far, as they look NOW
+	}
+	return out
 }
 
 var w *world
@@ -210,7 +247,7 @@ func exec(op string) string {
 			}
 			return defn.NonLocal
 		}
-		nw := &world{frames: map[string][][]byte{}}
+		nw := &world{frames: map[string][][]byte{}, pkts: map[string][]byte{}}
 		nw.stx = face.VerifNewTransport(common.Atoi(f[1]), scopeOf(f[9]))
 		nw.rtx = face.VerifNewTransport(defn.MaxNDNPacketSize, scopeOf(f[10]))
 		so := face.MakeNDNLPLinkServiceOptions()
@@ -257,6 +294,7 @@ func exec(op string) string {
 		face.VerifSendPacket(w.snd, out)
 		fr := w.stx.Frames
 		w.frames[f[1]] = fr
+		w.pkts[f[1]] = append([]byte(nil), wire...)
 		var sb strings.Builder
 		fmt.Fprintf(&sb, "n=%d", len(fr))
 		for _, x := range fr {
@@ -288,17 +326,18 @@ func exec(op string) string {
 		if !ok || i < 0 || i >= len(fr) {
 			return "skip"
 		}
-		calls = calls[:0]
-		face.VerifHandleIncomingFrame(w.rcv, fr[i])
-		collect()
-		out := "ps=" + strconv.Itoa(face.VerifPartialMessages(w.rcv))
-		for _, d := range delivered {
-			out += " " + d
+		w.arrive(fr[i])
+		return rxOut()
+	case "rxb": // the packet of message <id> arrives BARE (no LpPacket around it)
+		if w == nil || len(f) != 2 {
+			return "skip"
 		}
-		if len(delivered) > 0 {
-			out += " st=" + heldDigest() // all packets delivered so far, as they look NOW
+		pk, ok := w.pkts[f[1]]
+		if !ok {
+			return "skip"
 		}
-		return out
+		w.arrive(pk)
+		return rxOut()
 	case "end":
 		if w == nil {
 			return "skip"
@@ -601,8 +640,23 @@ func gen(g *common.Gen) {
 			}
 			g.Stat("order-permutation")
 		}
-		for _, o := range order {
+		bare := 0
+		if r.Chance(1, 3) {
+			bare = r.Range(1, 3) // consecutive bare packets through the same receive buffer
+		}
+		bareAt := r.Intn(len(order) + 1)
+		for j, o := range order {
+			if j == bareAt {
+				for ; bare > 0; bare-- {
+					g.Op("rxb %s", common.Pick(r, plans).id)
+					g.Stat("rx-bare")
+				}
+			}
 			g.Op("rx %s %d", o.id, o.i)
+		}
+		for ; bare > 0; bare-- {
+			g.Op("rxb %s", common.Pick(r, plans).id)
+			g.Stat("rx-bare")
 		}
 		g.Op("end")
 	}
